@@ -31,11 +31,24 @@ fi
 W=$(mktemp -d /var/tmp/verif-benign-XXXXXX)
 trap 'git -C /repo worktree remove --force "$W/tree" >/dev/null 2>&1; rm -rf "$W"' EXIT
 git -C /repo worktree add -q --detach "$W/tree" HEAD || exit 2
-if ! git -C "$W/tree" apply "$PATCH" 2>/dev/null; then
+if git -C "$W/tree" apply "$PATCH" 2>/dev/null; then
+	:
+elif git -C "$W/tree" apply --3way "$PATCH" >/dev/null 2>&1 && ! git -C "$W/tree" diff --name-only --diff-filter=U | grep -q .; then
+	# (written against an earlier commit; a later repair touched neighbouring lines and
+	# the two merge cleanly)
+	git -C "$W/tree" reset -q
+	echo "note: merged into HEAD (three-way)"
+else
+	git -C "$W/tree" checkout -q -f HEAD 2>/dev/null; git -C "$W/tree" reset -q --hard HEAD
 	# (written against an earlier commit, before a later repair touched the same lines)
 	[ -n "${VERIF_BASE_FALLBACK:-}" ] || { echo "patch does not apply"; exit 2; }
-	git -C "$W/tree" checkout -q --detach "$VERIF_BASE_FALLBACK" && git -C "$W/tree" apply "$PATCH" || { echo "patch does not apply"; exit 2; }
-	echo "note: applied to $VERIF_BASE_FALLBACK, not to HEAD"
+	applied=""
+	for base in $VERIF_BASE_FALLBACK; do
+		git -C "$W/tree" checkout -q --detach "$base" && git -C "$W/tree" apply "$PATCH" 2>/dev/null && { applied=$base; break; }
+		git -C "$W/tree" checkout -q -- . 2>/dev/null
+	done
+	[ -n "$applied" ] || { echo "patch does not apply"; exit 2; }
+	echo "note: applied to $applied, not to HEAD"
 fi
 mkdir -p "$W/ev" "$W/rp"
 bad=0
